@@ -56,7 +56,7 @@ def programs(tier):
         if tier == "quick":
             pairs = pairs[::3]
         else:
-            pairs = pairs[::4]  # the full grid (140 000 pairs) needs more than 45 min and 20 GB
+            pairs = pairs[::12]  # the full grid (140 000 pairs) needs more than an hour and 20 GB; every 4th pair still ran past 55 min
         for op in BINOPS + CMPOPS + ["<<", ">>"]:
             boolres = op in CMPOPS
             cons = consumers(kind, n, boolres)
@@ -194,7 +194,7 @@ def main():
            "explanation": "program pairs (folded vs run-time) compiled by the real compiler; the folded circuit is proved equal to the run-time circuit with the constants substituted, for ALL values of the free input; constants from a boundary grid",
            "pairs_unsat": n_unsat, "pairs_sat": n_sat, "pairs_unknown": n_unknown, "compile_errors": n_err, "disagreement_classes": {c: len(v) for c, v in classes.items()},
            "bounds": ["types " + ("int8,uint8,int32,uint9,int64,uint64" if tier == "quick" else "intN/uintN for N in {1,7,8,9,31,32,33,63,64}"),
-                      "constants from the boundary grid {0,1,2,3,max,max-1,min,min+1,-1,-2,-3,7,-7, top-bit patterns} (every 3rd pair in quick, every 4th in thorough)", "consumers: returned as is, + a, < a, == a (thorough adds / a, << 1, widening cast)"],
+                      "constants from the boundary grid {0,1,2,3,max,max-1,min,min+1,-1,-2,-3,7,-7, top-bit patterns} (every 3rd pair in quick; every 12th pair, but all 16 types and all 7 consumers, in thorough)", "consumers: returned as is, + a, < a, == a (thorough adds / a, << 1, widening cast)"],
            "outside_the_claim": ["constants wider than 64 bits (cannot be written as cast decimal literals; the large path builds and evaluates the same circuits)", "string/array constants", "operands of different declared types"],
            "inconclusive": inconcl[:20], "known_findings_reported": list(kf.values())}
     e2lib.write_evidence(PROP, tier, "translation_validation", cov, ["z3 is trusted; counterexamples are replayed by running both programs through the real compiler and Circuit.Compute"], wall, viol)
